@@ -106,6 +106,7 @@ struct Impl {
   SV sensor_model(const SV& in CAL_ARG, const R& r) const {
     spend();
     SV out{mix4(in.s, 0x53, (uint64_t)r.sensor, (uint64_t)r.rid), mix4(in.c, 0x53, (uint64_t)r.sensor, (uint64_t)r.rid)};
+    if (r.rid % 5 == 0) out = in;  // a discarded reading: estimate handed back unchanged (same convention as the Python stand-in)
     std::printf("S %ld %ld %llu %llu %llu %llu %ld\n", r.sensor, r.rid, (unsigned long long)in.s, (unsigned long long)in.c,
                 (unsigned long long)out.s, (unsigned long long)out.c, (long)CAL_ID);
     return out;
